@@ -238,6 +238,7 @@ class Ctx:
         self.choices = []
         self.steps = 0
         self.ghost = {}
+        self.trace = PList([])
         self.speculating = 0
         self.if_conversion = not bool(os.environ.get("PYVC_NO_IFCONV"))
         self.entry_ids_all = _AnyId()
@@ -683,9 +684,6 @@ class Ctx:
                 return r
         return NotImplemented
 
-    def instantiate_hook(self, I, cinfo, args, kwargs, node, fr):
-        return NotImplemented
-
     def on_write(self, obj, field, val, node):
         if self.speculating and id(obj) in self.entry_ids_all:
             raise SpecAbort()
@@ -1039,6 +1037,11 @@ class Ctx:
             if not is_sym(v):
                 return Fraction(v).denominator == 1
             return simp(z3.IsInt(sym.zreal(v)))
+        if nm == "calls":
+            return self.trace
+        if nm == "calls_of":
+            want = I.eval(e.args[0], fr)
+            return PList([ev for ev in self.trace.items if ev.fields["fn"] == want or ev.fields["fn"].endswith("." + want)])
         if nm == "log_count":
             lvl = I.eval(e.args[0], fr)
             return sum(1 for l, _ in self.log if l == lvl)
@@ -1197,6 +1200,9 @@ class Ctx:
         key = info.key
         if key in self.contract.opaque:
             raise Unsupported(f"opaque callee {key}")
+        tr = self._trace_entry(key)
+        if tr is not NotImplemented:
+            return self._record_call(I, info, key, args, kwargs, tr, fr)
         if key in self.contract.stubs:
             stub = self.sidecar.functions.get(self.contract.stubs[key])
             if stub is None:
@@ -1217,6 +1223,67 @@ class Ctx:
             if r is not NotImplemented:
                 return r
         return NotImplemented
+
+    def _trace_entry(self, key):
+        t = self.contract.trace
+        if not t:
+            return NotImplemented
+        if key in t:
+            return t[key]
+        mod, _, qual = key.partition(":")
+        if "." in qual:
+            wild = f"{mod}:{qual.split('.')[0]}.*"
+            if wild in t:
+                return t[wild]
+        return NotImplemented
+
+    def _record_call(self, I, info, key, args, kwargs, desc, fr):
+        """Mocked call: recorded in the ghost call trace, returns a fresh value of the given descriptor."""
+        if self.speculating:
+            raise SpecAbort()
+        try:
+            loc = I.bind_args(info, args, kwargs, fr)
+        except PyRaise:
+            raise
+        ev = PObj("Call", label=self.fresh_label("call"))
+        ev.fields["fn"] = info.qualname
+        ev.fields["key"] = key
+        ev.fields["args"] = PDict([(k, v) for k, v in loc.items()])
+        ev.fields["index"] = len(self.trace.items)
+        ret = None
+        if desc is not None:
+            ret, _ = self.make(desc, self.fresh_label(f"ret.{info.name}"))
+        ev.fields["ret"] = ret
+        self.trace.items.append(ev)
+        self.result.functions.setdefault(key, {
+            "file": os.path.relpath(info.module.path, self.world.repo), "span": list(info.span()),
+            "sha256": info.sha(), "role": "traced (call recorded, body not executed)"})
+        return ret
+
+    def instantiate_hook(self, I, cinfo, args, kwargs, node, fr):
+        key = f"{cinfo.module.name}:{cinfo.name}"
+        tr = self._trace_entry(key)
+        if tr is NotImplemented:
+            return NotImplemented
+        init = cinfo.find_method("__init__")
+        ev = PObj("Call", label=self.fresh_label("call"))
+        ev.fields["fn"] = cinfo.name
+        ev.fields["key"] = key
+        loc = {}
+        if init is not None:
+            obj0 = PObj(cinfo, label=self.fresh_label(cinfo.name))
+            loc = I.bind_args(init, [obj0, *args], kwargs, fr)
+            loc.pop(init.node.args.args[0].arg, None)
+        ev.fields["args"] = PDict(list(loc.items()))
+        ev.fields["index"] = len(self.trace.items)
+        ret = None
+        if tr is not None:
+            ret, _ = self.make(tr, self.fresh_label(f"new.{cinfo.name}"))
+        else:
+            ret = PObj(cinfo, label=self.fresh_label(cinfo.name))
+        ev.fields["ret"] = ret
+        self.trace.items.append(ev)
+        return ret
 
     def apply_contract(self, I, c, info, args, kwargs, node, fr):
         """Modular call: check requires, havoc the frame, assume ensures."""
